@@ -50,13 +50,31 @@
   Accessors: `solve()` = `least_squares->unknowns()`, `residuals()` = `r`,
   `trans_VWV()` = `suma_pvv_`, `rhs(i)` = `rhs_(i)` (never homogenised).
 
+  Cofactors (network.h:214-228, network.cpp `vyrovnani_()` last two blocks):
+    * `qxx(i,j)` = `least_squares->q_xx(i,j)`, `qbb(i,j)` = `least_squares->q_bb(i,j)` — plain
+      delegation to the solver object: for the full solvers that is the solver on the HOMOGENISED
+      dense system `(A, b)` of `prepareProjectEquations()` (`q_bb` = its hat matrix, NOT transformed
+      back with the cluster factor), for the envelope solver the solver on `AdjInputData`
+      (which homogenises itself);
+    * `weight_obs(i)` = `(m_0_apr_/revised_obs_[i-1]->stdDev())²`, `stdDev()` =
+      `sqrt(cluster->covariance_matrix(k,k))`, `k` the position of the observation in ITS cluster
+      (passive observations keep their position), `revised_obs_` = the active observations in
+      cluster order = the rows;
+    * `stdev_obs(i)` = `sigma_L(i)` = `m_0()/m_0_apr_ * sqrt(q_bb(n,n)) * stdDev` with `n` running
+      over the ACTIVE observations only; `wcoef_res(i)` = `vahkopr(i)` =
+      `max(0, (1 - q_bb(i,i))/weight_obs(i))`.  The arithmetic of these two, of `m_0()` and of
+      `degrees_of_freedom()` is NOT restated here: it is C09's regenerated `Gen/StatsGen.lean`
+      (`sigmaL`, `wcoefRes`, `weightObs`, `m0`, `degreesOfFreedom`); this model only says to WHICH
+      numbers they are applied.
+
   NOT modelled here: the repeat loop of `vyrovnani_` (huge covariances → points removed, C20),
-  `singular_coords`, `sigma_L`, `vahkopr` (C09); caching flags (C04).
+  `singular_coords`; caching flags (C04).
   Core Lean only.
 -/
 import Gama.Model.ActiveCov
 import Gama.Model.BandChol
 import Gama.Model.Ls.Adj
+import Gama.Gen.StatsGen
 namespace Gama.Ls.Net
 open Gama Gama.Ls Gama.Ls.Dn Gama.Ls.AdjM
 variable {K : Type} [Scalar K]
@@ -190,6 +208,10 @@ structure NetAnswer (K : Type) where
   /-- the dense `A`, `b` of the base class (homogenised), as the probe reads them -/
   Ad : DMat K
   bd : Array K
+  /-- `qxx(i,j)` = `least_squares->q_xx(i,j)` (1-based) -/
+  qxx : Nat → Nat → Except ErrKind K := fun _ _ => .error .NotModelled
+  /-- `qbb(i,j)` = `least_squares->q_bb(i,j)` (1-based; cofactors of the HOMOGENISED adjusted observations) -/
+  qbb : Nat → Nat → Except ErrKind K := fun _ _ => .error .NotModelled
 
 /-- full solvers: gso, svd, cholesky -/
 def netFull (alg : Alg) (np : NetProblem K) : Except ErrKind (NetAnswer K) :=
@@ -202,7 +224,8 @@ def netFull (alg : Alg) (np : NetProblem K) : Except ErrKind (NetAnswer K) :=
       match s.xErr with
       | some e => .error e
       | none =>
-        .ok { x := s.x, r := backRes np h.Us s.r, pvv := sumSq np.m s.r, defect := s.defect, Ad := h.Ad, bd := h.bd }
+        .ok { x := s.x, r := backRes np h.Us s.r, pvv := sumSq np.m s.r, defect := s.defect, Ad := h.Ad, bd := h.bd
+              qxx := s.qxx, qbb := s.qbb }
 
 /-- sparse solver: envelope (`prepareProjectEquations()` still runs on the dense `A`, `b`, and its
     rejection comes first) -/
@@ -215,12 +238,52 @@ def netSparse (np : NetProblem K) : Except ErrKind (NetAnswer K) :=
     | .ok s =>
       match s.xErr with
       | some e => .error e
-      | none => .ok { x := s.x, r := s.r, pvv := s.rtr, defect := s.defect, Ad := h.Ad, bd := h.bd }
+      | none => .ok { x := s.x, r := s.r, pvv := s.rtr, defect := s.defect, Ad := h.Ad, bd := h.bd
+                      qxx := s.qxx, qbb := s.qbb }
 
 /-- answers of a `LocalNetwork` configured with `alg` -/
 def netSolve (alg : Alg) (np : NetProblem K) : Except ErrKind (NetAnswer K) :=
   match alg with
   | .env => netSparse np
   | _ => netFull alg np
+
+/-! ### cofactor accessors and the statistics vectors `vyrovnani_()` fills -/
+
+/-- the answers in the vocabulary of the solver models (`Answer`): what C03/C08/C09 statements about
+    `q_xx`, `q_bb`, `defect` read -/
+def NetAnswer.toAnswer (a : NetAnswer K) : Answer K :=
+  { x := a.x, r := a.r, rtr := a.pvv, defect := a.defect, qxx := a.qxx, qbb := a.qbb
+    q0xx := fun _ _ => .error .NotModelled, qbx := fun _ _ => .error .NotModelled
+    lindep := fun _ => .error .NotModelled }
+
+/-- `revised_obs_[i]->stdDev()` in row order: `sqrt(covariance_matrix(k,k))` with `k` the (1-based)
+    position of the active observation inside its cluster -/
+def obsStdDev (np : NetProblem K) : Array K :=
+  (np.clusters.flatMap fun c => (Cov.activeIdx 1 c.obs).map fun k => Scalar.sqrt (c.cov.get k k)).toArray
+
+/-- `weight_obs(i)` (1-based) -/
+def weightObs (np : NetProblem K) (i : Nat) : K := StatsGen.weightObs np.m0 (vget (obsStdDev np) (i - 1))
+
+/-- `degrees_of_freedom()` = `A.rows() - A.cols() + least_squares->defect()` -/
+def NetAnswer.dof (np : NetProblem K) (a : NetAnswer K) : Int := StatsGen.degreesOfFreedom np.m np.n a.defect
+
+/-- `m_0()` for the configured kind of actual reference standard deviation -/
+def NetAnswer.m0 (np : NetProblem K) (a : NetAnswer K) (act : Stats.SigmaAct) : Except String K :=
+  StatsGen.m0 act np.m0 a.pvv (a.dof np)
+
+/-- `stdev_obs(i)` = `sigma_L(i)` (1-based): `MM * sqrt(least_squares->q_bb(n,n)) * (*i)->stdDev()` -/
+def NetAnswer.stdevObs (np : NetProblem K) (a : NetAnswer K) (act : Stats.SigmaAct) (i : Nat) : Except ErrKind K :=
+  match a.m0 np act with
+  | .error _ => .error .NotModelled
+  | .ok m0 =>
+    match a.qbb i i with
+    | .error e => .error e
+    | .ok q => .ok (StatsGen.sigmaL m0 np.m0 q (vget (obsStdDev np) (i - 1)))
+
+/-- `wcoef_res(i)` = `vahkopr(i)` (1-based): `(1 - q_bb(i,i))/weight_obs(i)`, negative values set to 0 -/
+def NetAnswer.wcoefRes (np : NetProblem K) (a : NetAnswer K) (i : Nat) : Except ErrKind K :=
+  match a.qbb i i with
+  | .error e => .error e
+  | .ok q => .ok (StatsGen.wcoefRes q (weightObs np i))
 
 end Gama.Ls.Net
